@@ -358,6 +358,7 @@ RealResult runReal(const Config &cfg, const RealInput &in) {
       if (usageLineLength(cfg.flags)) h.setUsageLineLength(usageLineLength(cfg.flags));
       setupDone = true;
       h.evalArguments(argc, argv.data());
+      if (in.usageAgain) { std::ostringstream again; again << h; res.out2 = again.str(); }
     } else {
       cpa::Groups::reset();
       // group level flags go to every member; the member flags we use are all in Groups2HandlerFlags or passed per handler
